@@ -2,7 +2,7 @@
    Results of the model are `res`: Ok v | Err | Panic line; the public functions' None is Err.
    cfg = true: overflow checks compiled in (cargo dev profile); cfg = false: wrapping (release). *)
 From RU Require Import Base.Prelude Base.Utf8 Base.U32_c13 Gen.Tables Model.Punycode Spec.Rfc3492
-  Proofs.C13_Ascii Proofs.C13_Bounds Proofs.C13_Enc Proofs.C13_Dec Proofs.C13_Known Proofs.C13_Vli Proofs.C13_Main.
+  Proofs.C13_Ascii Proofs.C13_Bounds Proofs.C13_Enc Proofs.C13_Dec Proofs.C13_Known Proofs.C13_Vli Proofs.C13_Rt Proofs.C13_Main.
 
 (* the regenerated Bootstring parameters are those of RFC 3492 section 5 *)
 Theorem C13_consts :
@@ -87,12 +87,19 @@ Definition C13_enc_dec_statement : Prop :=
   forall cfg p s, ~ Known_C13_2 p -> decode cfg p = Ok s -> has_non_ascii s = true ->
     exists q, encode cfg s = Ok q /\ eq_upto_digit_case q p.
 
-(* relative to the invertibility of Bootstring over unbounded integers on s, decode (encode s) is s or None *)
-Theorem C13_dec_enc_partial : forall cfg s p s', s_decode (s_encode s) = Some s -> ~ Known_C13_2 p ->
-  encode cfg s = Ok p -> decode cfg p = Ok s' -> s' = s.
+(* step (2): Bootstring over unbounded integers (Spec/Rfc3492) is invertible on every sequence of scalar values *)
+Theorem C13_spec_round_trip : forall s, usv_list s -> s_decode (s_encode s) = Some s.
+Proof. exact s_round_trip. Qed.
+Check C13_spec_round_trip : forall s, usv_list s -> s_decode (s_encode s) = Some s.
+Print Assumptions C13_spec_round_trip.
+
+(* decode (encode s) is s or None - never another string, never a panic (p shorter than 2^32, which
+   holds e.g. for every s of fewer than 2^32 / 8 scalars) *)
+Theorem C13_dec_enc_partial : forall cfg s p, usv_list s -> encode cfg s = Ok p -> ~ Known_C13_2 p ->
+  p = s_encode s /\ s_decode p = Some s /\ (decode cfg p = Ok s \/ decode cfg p = Err).
 Proof. exact dec_enc_partial. Qed.
-Check C13_dec_enc_partial : forall cfg s p s', s_decode (s_encode s) = Some s -> ~ Known_C13_2 p ->
-  encode cfg s = Ok p -> decode cfg p = Ok s' -> s' = s.
+Check C13_dec_enc_partial : forall cfg s p, usv_list s -> encode cfg s = Ok p -> ~ Known_C13_2 p ->
+  p = s_encode s /\ s_decode p = Some s /\ (decode cfg p = Ok s \/ decode cfg p = Err).
 Print Assumptions C13_dec_enc_partial.
 
 (* both directions of encode (decode p) are the unbounded algorithms *)
